@@ -4,6 +4,7 @@
 //! trusted: R5: the generic H: HasMppPart + Ord is instantiated with MppPart (one of the two call-site types; its HasMppPart impl is extracted and verified); `impl Iterator<Item=&mut MppPart>` is instantiated as the elements of a Vec<MppPart> (the call sites pass iter_mut() of a vector); ChannelManager self stub (the body reads only self.logger, removed by R3)
 //! trusted: R6: `.iter().map(|h| V).sum()` and `.iter_mut().for_each(|h| S)` and `for h in <iter_mut>` become index loops carrying the closure body verbatim; sort_parts() is an external_body wrapper for Vec::sort (a permutation); RecipientOnionFields is a skeleton {total_mpp_amount_msat} and check_merge is external_body (keeps total_mpp_amount_msat, Ok only if both totals agree); HTLCPreviousHopData, PaymentHash opaque
 //! trusted: R15 (statement slicing): handle_claimable_htlc works under the claimable_payments mutex with events and HashMap entries; the unit extracts the `let claim_deadline = Some(match <min of part expiries> {..} - HTLC_FAIL_BACK_BUFFER)` statement verbatim (the `.iter().map(..).min()` chain rewritten by R6 into a loop) as a function of the part list; ClaimableHTLC skeleton {mpp_part}
+//! trusted: //@oneof: the claim-deadline statement is accepted in two shapes, `E.iter().map(|h| V).min()` (R6 loop, the shape in the tree) and `E.iter().min()/.max().map(|h| V)` (an element picked by the element type's Ord, which is not modelled: iter_pick_by_ord returns some element of E); exactly the shape found is verified against the same contract
 //! trusted: R15 (deep slice): inbound_payment::verify decrypts and authenticates the payment secret (ChaCha20/HMAC, outside the verifier); the unit extracts its two final tests (total_msat against the amount and the expiry against the highest seen block time) verbatim as a function of the decoded (min_amt_msat, expiry); decoding those two numbers from the decrypted bytes is the subject of unit u04d (the real decoding statements against the byte layout) together with the Kani harness h_info_bytes (construct_info_bytes is the inverse of that layout); FinalOnionHopData skeleton
 //! trusted: R15: claim_payment_internal: the unit extracts the amount re-check (the loop over the parts and the two abort tests, conditions captured) verbatim as a function of the part list; begin_claiming_payment before it and the per-channel claims after it are dropped and not claimed; R6: `for htlc in sources.iter()` becomes an index loop
 //! trusted: R15 (deep slice): ClaimablePayments::begin_claiming_payment: the custom-TLV refusal test verbatim (the `.iter().any(|(typ, _)| P)` becomes an index loop carrying P, R6)
@@ -250,6 +251,8 @@ impl ChannelManager {
 
 // ---- the claim deadline advertised in PaymentClaimable (R15 slice of handle_claimable_htlc) ----
 pub struct ClaimableHTLC { pub mpp_part: MppPart }
+#[verifier::external_body] pub fn iter_pick_by_ord(v: &Vec<ClaimableHTLC>) -> (r: Option<&ClaimableHTLC>)
+    ensures v@.len() == 0 ==> r is None, v@.len() > 0 ==> r is Some && exists|k: int| 0 <= k < v@.len() && *r->Some_0 == #[trigger] v@[k] { unimplemented!() }
 pub open spec fn min_expiry(s: Seq<ClaimableHTLC>) -> int decreases s.len() {
     if s.len() == 0 { 0x1_0000_0000 } else { let m = min_expiry(s.drop_last()); if (s.last().mpp_part.cltv_expiry as int) < m { s.last().mpp_part.cltv_expiry as int } else { m } }
 }
@@ -276,6 +279,7 @@ pub proof fn lemma_min_expiry(s: Seq<ClaimableHTLC>)
     }
 }
 //@extract lightning/src/ln/channelmanager.rs :: impl ChannelManager :: fn handle_claimable_htlc
+//@oneof claim_deadline
 //@rw R15
     fn handle_claimable_htlc($params:any) -> $ret { $pre:any match self.check_incoming_mpp_part($args) { Ok(true) => { $p2:any let claim_deadline = Some( match claimable_payment.htlcs.iter().map(|$h:ident| $v).min() { Some($d:ident) => $sd, None => { $dbg:any; htlc_expiry }, } - HTLC_FAIL_BACK_BUFFER, ); $q2:any }, $arms:any } }
 //@with
@@ -314,6 +318,30 @@ pub proof fn lemma_min_expiry(s: Seq<ClaimableHTLC>)
     Some(claim_deadline) => claim_deadline,
 //@with
     Some(claim_deadline) => claim_deadline + 1,
+//@end
+//@extract lightning/src/ln/channelmanager.rs :: impl ChannelManager :: fn handle_claimable_htlc
+//@oneof claim_deadline
+//@rw R15
+    fn handle_claimable_htlc($params:any) -> $ret { $pre:any match self.check_incoming_mpp_part($args) { Ok(true) => { $p2:any let claim_deadline = Some( match claimable_payment.htlcs.iter().$sel:ident().map(|$h:ident| $v) { Some($d:ident) => $sd, None => { $dbg:any; htlc_expiry }, } - HTLC_FAIL_BACK_BUFFER, ); $q2:any }, $arms:any } }
+//@with
+    fn advertised_claim_deadline(htlcs: &Vec<ClaimableHTLC>, htlc_expiry: u32) -> Option<u32> {
+        Some(
+            // R6 (second shape): `E.iter().min()` / `.max()` picks an element of E by the element type's own Ord, which is not modelled
+            // here: iter_pick_by_ord returns SOME element (None iff E is empty); `.map(|h| V)` keeps the closure body (R9: typed, ensures o == V)
+            match iter_pick_by_ord(htlcs).map(|$h: &ClaimableHTLC| -> (o: u32) ensures o == $v { $v }) { Some($d) => $sd, None => { htlc_expiry }, } - HTLC_FAIL_BACK_BUFFER,
+        )
+    }
+//@ret r
+//@requires
+    htlcs@.len() >= 1, forall|k: int| 0 <= k < htlcs@.len() ==> (#[trigger] htlcs@[k]).mpp_part.cltv_expiry >= HTLC_FAIL_BACK_BUFFER,
+//@ensures P C04 the-advertised-claim-deadline-is-the-earliest-part-expiry-less-the-fail-back-buffer
+    r is Some,
+    // the deadline is at or below every part's own on-chain time-out height, so no part has timed out at any height strictly below it ...
+    forall|k: int| 0 <= k < htlcs@.len() ==> r->Some_0 as int <= (#[trigger] htlcs@[k]).mpp_part.cltv_expiry as int - HTLC_FAIL_BACK_BUFFER as int,
+    // ... and at the deadline itself some part does (the node then fails the payment back itself)
+    exists|k: int| 0 <= k < htlcs@.len() && r->Some_0 as int == (#[trigger] htlcs@[k]).mpp_part.cltv_expiry as int - HTLC_FAIL_BACK_BUFFER as int,
+//@at body_start
+    proof { lemma_min_expiry(htlcs@); }
 //@end
 
 // ---- claiming: all parts or none (R15 slice of ChannelManager::claim_payment_internal) ----
